@@ -190,6 +190,22 @@ def r4_structure(P, rep, ctx):
     ft = [t.idx for t in g.nodes if t.kind == "test" and norm(t.exprs[0]) in ("is_file or is_sym", "is_sym or is_file")]
     rep.check(bool(cut) and bool(ft) and all(any(g.edge_dominates(t, "T", c) for t in ft) for c in cut), "C19.R4", fi.qual, "only files and symlinks are split into (parent chain, name); a directory contributes its full path (so empty directories appear)", fi.loc(),
               construct="relpath cut only for files/symlinks", message="dir_hashsums cuts the last component off every entry, directories included: a directory is only recorded as parent of something below it, so empty directories vanish from the tree")
+    vs = [n.idx for n in g.nodes if n.kind == "stmt" and norm(n.stmt) == "curr[fname] = val"]
+    rep.check(bool(vs) and bool(ft) and all(any(g.edge_dominates(t, "T", v) for t in ft) for v in vs) and any(g.every_path_passes(vs, [n.idx for n in g.nodes if n.kind == "for" and "rglob" in norm(n.stmt.iter)][0], src=t, src_label="T") for t in ft), "C19.R4", fi.qual,
+              "every file and symlink is recorded under its name (and only those)", fi.loc(), construct="entry store condition", message="dir_hashsums does not store the value of every file/symlink entry (or stores one for directories)")
+    segl = [n for n in g.nodes if n.kind == "for" and norm(n.stmt.iter) == "str(relpath).split('/')"]
+    dot = [t.idx for t in g.nodes if t.kind == "test" and norm(t.exprs[0]) == "seg == '.'"]
+    mk = [t.idx for t in g.nodes if t.kind == "test" and norm(t.exprs[0]) == "seg not in curr"]
+    mks = [n.idx for n in g.nodes if n.kind == "stmt" and norm(n.stmt) == "curr[seg] = dict()"]
+    dsc = [n.idx for n in g.nodes if n.kind == "stmt" and norm(n.stmt) == "curr = curr[seg]"]
+    ok = len(segl) == 1 and bool(dot) and bool(mk) and bool(mks) and bool(dsc) and all(g.edge_dominates(mk[0], "T", x) for x in mks) and all(g.every_path_passes(mks, segl[0].idx, src=t, src_label="T") for t in mk) and all(g.every_path_passes(dsc, segl[0].idx, src=t, src_label="F") for t in dot) and all(any(isinstance(g.nodes[b].stmt, ast.Continue) for b, l in g.succ[t] if l == "T") for t in dot)
+    rep.check(ok, "C19.R4", fi.qual, "each path segment (except '.') creates its dict when absent and descends into it", fi.loc(), construct="segment loop", message="the directory-chain loop of dir_hashsums no longer creates missing dicts / descends for every segment")
+    bt = [t.idx for t in ctx.cfg(P.func(f"{H}.hashsum")).nodes if t.kind == "test" and norm(t.exprs[0]) == "isinstance(data, bytes)"]
+    rep.check(bool(bt), "C19.R4", f"{H}.hashsum", "bytes input is wrapped exactly when it is bytes", fi.loc(), construct="bytes test", message="hashsum wraps non-bytes input / does not wrap bytes")
+    from .common import require_total
+
+    for q in (f"{H}.hashsum", f"{H}.qualified_hashsum", f"{H}.file_hashsum", f"{H}.rel_symlink", f"{H}.dir_hashsums", "ih5.record.hashsum_file"):
+        require_total(rep, ctx, "C19.R4", P.func(q))
     stores = [st for st in walk_local(fi.node) if isinstance(st, ast.Assign) and any(isinstance(tt, ast.Subscript) and norm(tt.value) == "curr" for tt in st.targets)]
     vals = sorted({norm(s.value) for s in stores})
     rep.check(vals == ["dict()", "val"], "C19.R4", fi.qual, "only sub-dicts and the entry value are stored into the tree", fi.loc(), construct=f"stored values {vals}", message=f"dir_hashsums stores {vals} into the result")
